@@ -705,7 +705,7 @@ def judge_mmsc(case, acc):
                 acc.count('skip:akima-no-condition-estimate')      # (the raise is already reported)
             elif 'akima' in method:
                 # complex step on the table values (akima is only piecewise smooth in them, see above)
-                sel = rng.choice(v1.size, size=min(24, v1.size), replace=False)
+                sel = rng.choice(v1.size, size=min(24 if nd < 4 else 8, v1.size), replace=False)
                 tol = 2 * (8 * delta / vmax + 64 * R.EPS * cond_t)
                 for q in sel:
                     t = v1.astype(complex).ravel()
